@@ -345,13 +345,6 @@ func (in *inliner) eligible1(f *Fn) bool {
 	if sig == nil || sig.Variadic() || sig.TypeParams().Len() > 0 || sig.RecvTypeParams().Len() > 0 {
 		return false
 	}
-	if f.Type.Results != nil {
-		for _, r := range f.Type.Results.List {
-			if len(r.Names) > 0 {
-				return false
-			}
-		}
-	}
 	if f.Decl.Recv != nil {
 		for _, r := range f.Decl.Recv.List {
 			if len(r.Names) > 1 {
@@ -635,6 +628,26 @@ func planRound(p *Prog, round int) roundPlan {
 			fe.edits = append(fe.edits, textEdit{start: in.off(start), end: in.off(cf.Decl.End()), text: "", removal: true})
 			plan.removed = append(plan.removed, cf.Name())
 		}
+	}
+	// unexported helpers that nothing refers to any more (their calls were expanded in an earlier round) go too
+	for _, cf := range p.fnList {
+		if cf.Decl == nil || cf.Obj == nil || uses[cf.Obj] != 0 || !in.eligible(cf) {
+			continue
+		}
+		if cf.Decl.Recv != nil && in.methodNeeded(cf) {
+			continue
+		}
+		start := cf.Decl.Pos()
+		if cf.Decl.Doc != nil {
+			start = cf.Decl.Doc.Pos()
+		}
+		if overlaps(start, cf.Decl.End()) || inFrozen(start, cf.Decl.End()) {
+			continue
+		}
+		taken = append(taken, rng{start, cf.Decl.End()})
+		fe := in.file(start)
+		fe.edits = append(fe.edits, textEdit{start: in.off(start), end: in.off(cf.Decl.End()), text: "", removal: true})
+		plan.removed = append(plan.removed, cf.Name())
 	}
 	in.keepImportsUsed(&plan)
 	for name, fe := range in.files {
@@ -1048,7 +1061,7 @@ func (in *inliner) expand(s callSite) (eds []textEdit, a, b token.Pos, ok bool) 
 			b0.declare = make([]bool, nres)
 			for i, l := range st.Lhs {
 				id, ok := l.(*ast.Ident)
-				if !ok || (id.Name != "_" && (b0.localNames[id.Name] || b0.isBound(id.Name))) {
+				if !ok || (id.Name != "_" && (b0.localNames[id.Name] || b0.isBound(id.Name) || b0.declaresName(id.Name))) {
 					direct = false
 					break
 				}
@@ -1269,6 +1282,24 @@ type bodyBuilder struct {
 	bindArgs   []string
 	localNames map[string]bool
 	declare    []bool // direct targets: which results need a declaration (nil: temporaries, all declared)
+}
+
+// declaresName: the helper's signature declares the name (a parameter that is not substituted away, the
+// receiver, a named result): inside the expanded block the name would refer to that declaration.
+func (b *bodyBuilder) declaresName(name string) bool {
+	for _, n := range b.namedResults() {
+		if n == name {
+			return true
+		}
+	}
+	for _, pv := range b.params {
+		if pv != nil && pv.Name() == name {
+			if _, substituted := b.subst[pv]; !substituted {
+				return true
+			}
+		}
+	}
+	return false
 }
 
 func (b *bodyBuilder) isBound(name string) bool {
@@ -1816,6 +1847,9 @@ func (b *bodyBuilder) build(mode int, tmp func(int) string) (string, string) {
 			for _, r := range rs.Results {
 				res = append(res, b.render(r.Pos(), r.End(), nil))
 			}
+			if len(rs.Results) == 0 && b.nres > 0 {
+				res = append(res, b.namedResults()...) // bare return of named results
+			}
 			var txt string
 			switch {
 			case b.nres == 0 || (mode == modeDiscard && len(res) == 0):
@@ -1877,12 +1911,38 @@ func (b *bodyBuilder) build(mode int, tmp func(int) string) (string, string) {
 			sb.WriteString(strings.TrimSuffix(strings.Repeat("_, ", len(named)), ", ") + " = " + strings.Join(named, ", ") + "\n")
 		}
 	}
+	// named results are ordinary locals of the expanded block (zero-initialised)
+	if names := b.namedResults(); len(names) > 0 {
+		for i, nm := range names {
+			if nm == "_" {
+				continue
+			}
+			tt, _ := b.typeText(b.sig.Results().At(i).Type())
+			sb.WriteString("var " + nm + " " + tt + "\n_ = " + nm + "\n")
+		}
+	}
 	sb.WriteString(body)
 	sb.WriteString("\n}\n")
 	if !usedLabel {
 		label = ""
 	}
 	return sb.String(), label
+}
+
+// namedResults lists the names of the helper's results when they are named.
+func (b *bodyBuilder) namedResults() []string {
+	var out []string
+	if r := b.s.callee.Type.Results; r != nil {
+		for _, fld := range r.List {
+			for _, nm := range fld.Names {
+				out = append(out, nm.Name)
+			}
+		}
+	}
+	if len(out) != b.nres {
+		return nil
+	}
+	return out
 }
 
 // typesOK reports whether every result type can be written at the call site.
